@@ -124,9 +124,9 @@ def register_wfa(reg):
                   "forall(lambda j, t: implies(0 <= j < len(seq_batch) and 0 <= t < len(keys(seq_batch[j][0].tags)), keys(seq_batch[j][0].tags)[t] in seq_batch[j][0].tags))"],
         loops={
             1: Loop(index="it1", fingerprint="for gaf_line, ref, query, prior_counter in seq_batch", modifies=["MS", "TS", "ct"],
-                    pres_from={"short-records-length": ["tags-printed", "number-of-fields", "loop1:short-records-length", "loop1:one-item-per-record"],
+                    pres_from={"short-records-length": ["tags-printed", "number-of-fields", "loop1:short-records-length", "loop1:one-item-per-record", "!partial"],
                                "short-records-tags-in-place-cigar-replaced": ["tags-printed", "cigar-replaced-in-place", "number-of-fields",
-                                                                              "loop1:short-records-tags-in-place-cigar-replaced", "loop1:one-item-per-record"]},
+                                                                              "loop1:short-records-tags-in-place-cigar-replaced", "loop1:one-item-per-record", "!partial"]},
                     invariant={
                 "one-item-per-record": "len(qu) == q0 + it1",
                 "all-items-so-far-are-results": "forall(lambda k: implies(q0 <= k < len(qu), not is_none(qu[k])))",
